@@ -60,7 +60,11 @@ def design_families(ctx, names=None):
 
 
 def _obs_job(args):
-  ad, rid, times, detail, use_cache = args
+  retime_seed = None
+  if len(args) == 6:
+    ad, rid, times, detail, use_cache, retime_seed = args
+  else:
+    ad, rid, times, detail, use_cache = args
   import logging
   logging.getLogger("ttconv").setLevel(logging.CRITICAL + 10)
   try:
@@ -68,7 +72,9 @@ def _obs_job(args):
     if ad.get("styles") is not None or ad.get("anim_styles") is not None or ad.get("initials") is not None:
       from .stylecat import catalogue
       cat = catalogue()[0]
-    return observe(ad, rid, times=times, detail=detail, use_cache=use_cache, style_catalogue=cat)
+    import random
+    return observe(ad, rid, times=times, detail=detail, use_cache=use_cache, style_catalogue=cat,
+                   retime_rng=None if retime_seed is None else random.Random(retime_seed))
   except Exception as ex:  # pylint: disable=broad-except
     import traceback
     return {"id": rid, "error": repr(ex), "tb": traceback.format_exc()[-1500:], "doc": ad}
@@ -77,7 +83,10 @@ def _obs_job(args):
 def observe_all(jobs, procs=12):
   """jobs: list of (abstract doc, id, times or None, detail, use_cache)."""
   with Pool(procs) as pool:
-    return pool.map(_obs_job, jobs, chunksize=8)
+    out = []
+    for r in pool.map(_obs_job, jobs, chunksize=8):
+      out.extend(r if isinstance(r, list) else [r])
+    return out
 
 
 def validate(ctx, recs, families, label, nproc=6):
